@@ -88,6 +88,8 @@ def campaign(ck, label, *, flush, stacks, requests, shards, module, cfg, relevan
         p = dict(seed=ck.seed, first=first, count=count, requests=requests, flush=flush,
                  out=os.path.join(d, "t%d.ndjson" % s), min_out=os.path.join(d, "m%d.ndjson" % s), minimise=minimise)
         p.update(extra or {})
+        if p.get("internals_every"):
+            p["int_out"] = os.path.join(d, "i%d.ndjson" % s)   # State projections for CacheInternals.tla (vlib/cacheint.py)
         jobs.append(p)
     results = []
     with cf.ThreadPoolExecutor(max_workers=parallel) as ex:
